@@ -16,6 +16,7 @@ import (
 	"github.com/alttpo/snes/color15"
 	"github.com/alttpo/snes/emulator"
 	"github.com/alttpo/snes/emulator/cpu65c816"
+	"github.com/alttpo/snes/emulator/memory"
 	"github.com/alttpo/snes/mapping/util"
 	"pgregory.net/rapid"
 
@@ -55,6 +56,17 @@ func c18Hooks(c *cpu65c816.CPU, seed uint32, hits *int) {
 	start := uint32(st.RK)<<16 | uint32(st.PC)
 	for k := uint32(0); k < 6; k++ {
 		c.OnPC[start&0xff0000|(start+k*k)&0xffff] = func() { *hits++ }
+	}
+}
+
+// c18WDMPrelude places eight WDM instructions (operands from the seed) where the workload's program starts, so that every
+// CPU workload with a WDM hook takes it several times right after the start.
+func c18WDMPrelude(mem *rig.Mem, seed uint32) {
+	st := c18State(seed)
+	for k := uint16(0); k < 8; k++ {
+		a := uint32(st.RK)<<16 | uint32(st.PC+2*k)
+		mem.Poke(a, 0x42)
+		mem.Poke(uint32(st.RK)<<16|uint32(st.PC+2*k+1), rig.Mix(seed, uint32(k)))
 	}
 }
 
@@ -102,6 +114,7 @@ func c18Run(w c18Work, rendezvous func()) (h uint64, err error) {
 		var wdm []byte
 		sys.CPU.OnWDM = func(b byte) { wdm = append(wdm, b) }
 		hits := 0
+		c18WDMPrelude(mem, w.Seed)
 		ready()
 		c18Hooks(&sys.CPU, w.Seed, &hits)
 		ret := sys.RunUntil(0xEE1234, uint64(w.N))
@@ -116,6 +129,16 @@ func c18Run(w c18Work, rendezvous func()) (h uint64, err error) {
 			sys.ROM[i] = rig.Mix(w.Seed, uint32(i))
 			sys.SRAM[i] = rig.Mix(w.Seed^1, uint32(i))
 			sys.WRAM[i] = rig.Mix(w.Seed^2, uint32(i))
+		}
+		// an extra cartridge chip of this System's own: a read-only memory.ROM device (sizes and load addresses differ
+		// from workload to workload)
+		chip := make([]byte, 0x100+int(w.Seed&0xFF)*16)
+		for i := range chip {
+			chip[i] = rig.Mix(w.Seed^3, uint32(i))
+		}
+		chipAt := 0x400000 + (w.Seed>>8&0xF)<<16
+		if e := sys.Bus.Attach(memory.NewROM(chip, chipAt), "chip", chipAt, chipAt+uint32(len(chip))-1); e != nil {
+			return 0, e
 		}
 		ready()
 		for i := 0; i < w.N; i++ {
@@ -137,6 +160,8 @@ func c18Run(w c18Work, rendezvous func()) (h uint64, err error) {
 			iv := sys.Bus.EaRead(io)
 			sys.Bus.EaWrite(io, iv+rig.Mix(w.Seed, uint32(i))+1)
 			d.add(io, iv)
+			ca := chipAt + uint32(rig.Mix(w.Seed, uint32(7*i)))%uint32(len(chip))
+			d.add(sys.Bus.EaRead(ca), sys.Bus.EaRead24_wrap(byte(ca>>16), uint16(ca)&0xFFF0))
 		}
 		d.add(sys.ROM[:0x10000], sys.SRAM[:], sys.WRAM[:0x10000])
 	case "pri", "alt":
@@ -150,6 +175,17 @@ func c18Run(w c18Work, rendezvous func()) (h uint64, err error) {
 		cpu.SetMem(mem)
 		cpu.LoadRaw(c18State(w.Seed))
 		hits := 0
+		c18WDMPrelude(mem, w.Seed)
+		var wdmSeen []byte
+		switch c := cpu.(type) {
+		case *rig.Primary:
+			c.C.OnWDM = func(b byte) { wdmSeen = append(wdmSeen, b) }
+			defer func() { c.C.OnWDM = nil }()
+		case *rig.Alt:
+			c.C.OnWDM = func(b byte) { wdmSeen = append(wdmSeen, b) }
+			defer func() { c.C.OnWDM = nil }()
+		}
+		defer func() { d.add(wdmSeen) }()
 		ready()
 		if pc, ok := cpu.(*rig.Primary); ok {
 			c18Hooks(pc.C, w.Seed, &hits)
@@ -330,6 +366,23 @@ func c18Run(w c18Work, rendezvous func()) (h uint64, err error) {
 		d.add(r.Contents)
 	case "pure":
 		ready()
+		// first of all every stateless function is called once, in an order that differs from workload to workload: in a
+		// fresh process these are the first calls ever, made by several goroutines at the same moment (state that is built
+		// lazily on first use is being built right now, if there is any)
+		{
+			first := []func(){
+				func() { d.add(color15.Color(w.Seed).Luminosity()) },
+				func() { d.add(uint16(color15.Color(w.Seed).MulDiv(byte(w.Seed>>8)|1, byte(w.Seed>>16)|1))) },
+				func() { r, g, b := color15.Color(w.Seed >> 3).ToRGB(); d.add(r, g, b, uint16(color15.ToColor15(r, g, b))) },
+			}
+			for _, m := range mappers {
+				m := m
+				first = append(first, func() { p, e := m.b2p(w.Seed & 0xFFFFFF); d.add(p, e == nil) }, func() { b, e := m.p2b(w.Seed >> 4 & 0xFFFFFF); d.add(b, e == nil) })
+			}
+			for k := range first {
+				first[(k+int(w.Seed%uint32(len(first))))%len(first)]()
+			}
+		}
 		for i := 0; i < w.N; i++ {
 			a := uint32(rig.Mix(w.Seed, uint32(4*i)))<<16 | uint32(rig.Mix(w.Seed, uint32(4*i+1)))<<8 | uint32(rig.Mix(w.Seed, uint32(4*i+2)))
 			for _, m := range mappers {
@@ -462,6 +515,9 @@ func TestC18(t *testing.T) {
 				var fixed []string
 				for _, k := range kinds {
 					fixed = append(fixed, k)
+					if k == "pure" {
+						fixed = append(fixed, k, k) // four of them: they are cheap, and first-use races need company
+					}
 					if k != "prifork" && k != "altfork" {
 						fixed = append(fixed, k)
 					}
